@@ -64,6 +64,9 @@ type clCase struct {
 
 const clApps, clNodes = 3, 6
 
+// clLateApp: a funded plain account that stakes as an application in the middle of the history
+const clLateApp = chain.KeyAcct0 + 2
+
 func genClaimsCase(seed int64, si int, prop string) *clCase {
 	rr := rng.New(seed, "claims", si)
 	c := &clCase{B: int64(2 + rr.Intn(4)), W: int64(2 + rr.Intn(3)), Nodes: clNodes, Apps: clApps}
@@ -79,6 +82,14 @@ func genClaimsCase(seed int64, si int, prop string) *clCase {
 		g.Apps[i].Stake = 5_000_000_000
 	}
 	g.Apps[2].Chains = []string{"0001"} // not staked for 0021
+	if prop == "C32" {
+		g.Apps[1].Stake = 30_000_000 // allowance 30/2/3 = 5 relays per node until it raises its stake (see below)
+		for i := range g.Accounts {
+			if g.Accounts[i].Key == clLateApp {
+				g.Accounts[i].Coins = 20_000_000_000 // will stake as an application later
+			}
+		}
+	}
 	b := chain.NewBuilder(g)
 	b.Bootstrap()
 	// session starts: 1 + k*B; first one fully after the bootstrap
@@ -104,7 +115,11 @@ func genClaimsCase(seed int64, si int, prop string) *clCase {
 			if rr.Intn(10) < 4 {
 				continue
 			}
-			set := chain.RelaySet{App: chain.KeyApp0 + rr.Intn(2), Client: chain.KeyFresh0 + rr.Intn(2), Servicer: chain.KeyNode0 + nd, Chain: "0001", SBH: sbh, N: 5 + rr.Intn(20), Seed: int64(si*1000 + s*10 + nd)}
+			appKey := chain.KeyApp0 + rr.Intn(2)
+			if prop == "C32" && rr.Intn(5) == 0 {
+				appKey = clLateApp // staked only from the middle of the third session on
+			}
+			set := chain.RelaySet{App: appKey, Client: chain.KeyFresh0 + rr.Intn(2), Servicer: chain.KeyNode0 + nd, Chain: "0001", SBH: sbh, N: 5 + rr.Intn(20), Seed: int64(si*1000 + s*10 + nd)}
 			cl := &clClaim{Class: "valid", B: c.B, W: c.W, E: c.E, SBH: sbh}
 			d := chain.DynTx{Kind: "claim", Set: set}
 			inWin := func() int64 { // a height strictly inside the acceptance window, before the selector is committed
@@ -114,7 +129,7 @@ func genClaimsCase(seed int64, si int, prop string) *clCase {
 				return ph
 			}
 			cl.H = inWin()
-			classes := []string{"valid", "valid", "valid", "during-session", "at-proof-height", "at-proof-height", "late", "over-service", "under-minimum", "unsupported-chain", "app-not-staked", "app-lacks-chain", "node-lacks-chain", "foreign-signer", "resubmitted", "predicting", "off-boundary-session"}
+			classes := []string{"valid", "valid", "valid", "during-session", "at-proof-height", "at-proof-height", "late", "over-service", "under-minimum", "unsupported-chain", "app-not-staked", "app-lacks-chain", "node-lacks-chain", "foreign-signer", "resubmitted", "predicting", "off-boundary-session", "challenge-typed"}
 			if prop == "C31" {
 				classes = []string{"valid", "at-proof-height", "at-proof-height", "late", "predicting", "predicting", "last-before-proof-height", "during-session"}
 			}
@@ -145,6 +160,8 @@ func genClaimsCase(seed int64, si int, prop string) *clCase {
 			case "predicting":
 				cl.H = ph // the only height at which prediction can work
 				d.Predict = true
+			case "challenge-typed":
+				d.EvType = 2 // a claim of evidence type "challenge" over relay leaves
 			case "off-boundary-session":
 				// a "session" that starts 1..B-1 blocks after a real session start
 				d.Set.SBH = sbh + 1 + int64(rr.Intn(int(c.B-1)))
@@ -178,12 +195,15 @@ func genClaimsCase(seed int64, si int, prop string) *clCase {
 				pclasses = []string{"valid", "valid", "valid", "wrong-index", "same-block"}
 			}
 			pc := pclasses[rr.Intn(len(pclasses))]
+			if cl.Class == "challenge-typed" {
+				pc = "repeated"
+			}
 			lo := ph
 			if cl.H+1 > lo {
 				lo = cl.H + 1
 			}
 			mk := func(h int64, class string, mod func(*chain.DynTx)) {
-				pd := chain.DynTx{Kind: "proof", Set: cl.Dyn.Set, Total: cl.Dyn.Total, Predict: cl.Dyn.Predict, Entropy: next()}
+				pd := chain.DynTx{Kind: "proof", Set: cl.Dyn.Set, Total: cl.Dyn.Total, Predict: cl.Dyn.Predict, EvType: cl.Dyn.EvType, Entropy: next()}
 				if mod != nil {
 					mod(&pd)
 				}
@@ -248,19 +268,36 @@ func genClaimsCase(seed int64, si int, prop string) *clCase {
 	victim := chain.KeyNode0 + rr.Intn(clNodes)
 	jailFrom := first + int64(rr.Intn(int(c.B)*nSessions))
 	jailed := chain.KeyNode0 + rr.Intn(clNodes)
+	// the application set changes too: application 1 starts with an allowance of 5 relays per node and raises its stake in
+	// the middle of the second session; a plain account stakes as an application in the middle of the third session. Claims
+	// are judged against the state at the START of their session.
+	raiseH := first + c.B + c.B/2
+	lateH := first + 2*c.B + c.B/2
 	for b.H <= maxH+2 {
 		blk := b.Begin(60)
+		static := 0
 		if b.H == unstakeH {
 			b.Tx(chain.MsgNodeUnstake(chain.Addr(victim), chain.Addr(victim)), chain.Key(victim))
-			// dynamic transactions keep the indexes they were given: they come after this one
+			static++
+		}
+		if prop == "C32" && b.H == raiseH {
+			b.Tx(chain.MsgAppStake(chain.Key(chain.KeyApp0+1), []string{"0001", "0021"}, 5_000_000_000), chain.Key(chain.KeyApp0+1))
+			static++
+		}
+		if prop == "C32" && b.H == lateH {
+			b.Tx(chain.MsgAppStake(chain.Key(clLateApp), []string{"0001"}, 5_000_000_000), chain.Key(clLateApp))
+			static++
+		}
+		if static > 0 {
+			// dynamic transactions keep the indexes they were given: they come after the static ones
 			for _, cl := range c.Claims {
 				if cl.H == b.H {
-					cl.txi++
+					cl.txi += static
 				}
 			}
 			for _, p := range c.Proofs {
 				if p.H == b.H {
-					p.txi++
+					p.txi += static
 				}
 			}
 		}
@@ -529,9 +566,15 @@ func checkClaims(r *ev.Run, prop string) {
 							r.Violation("paid/foreign-signer", fmt.Sprintf("case %d: proof signed by a foreign key was paid", si), w)
 						}
 						if findClaim(post, key) != nil {
-							r.Violation("paid/claim-not-removed", fmt.Sprintf("case %d: the claim is still stored after its proof was paid", si), w)
+							k := "paid/claim-not-removed"
+							if cl.Dyn.EvType == 2 {
+								k += "/challenge-typed-claim"
+							}
+							r.Violation(k, fmt.Sprintf("case %d: the claim (evidence type %d) is still stored after its proof was paid", si, cl.Dyn.EvType), w)
 						}
-						if paid[key] > 1 {
+						if paid[key] > 1 && cl.Dyn.EvType == 2 {
+							r.Violation("paid/challenge-typed-claim-paid-again", fmt.Sprintf("case %d: a claim filed with evidence type 2 (challenge) over relay leaves was paid %d times for session %d/%s: the proof handler pays on the leaf type and deletes the claim under the relay-evidence key, so the stored claim survives its own payment", si, paid[key], set.SBH, set.Chain), w)
+						} else if paid[key] > 1 {
 							r.Violation("paid/same-session-twice", fmt.Sprintf("case %d: servicer %s was paid %d times for session %d/%s of one application", si, chain.AddrHex(signer), paid[key], set.SBH, set.Chain), w)
 						}
 					} else if tx.Code == 0 {
